@@ -1713,7 +1713,7 @@ impl ColorPalette {
         if img.is_empty() {
             return None;
         }
-        let sample: u32 = (img.height() * img.width() / (palette_size * 100)) as u32;
+        let sample: u32 = (img.height() * img.width() / palette_size.saturating_mul(100)) as u32;
         let mut octree: OcTree = if sample < 2 {
             img.iter().map(|c| blend(bg, *c)).collect()
         } else {
